@@ -1,88 +1,27 @@
 import Arc.Model.C04
-/-! Helper lemmas for C04: a flush of clean, signature-equal batches cannot panic. -/
+/-! Helper lemmas for C04: a flush of batches whose columns all have the length of the `time`
+column cannot panic (current /repo: empty names are guarded in the schema builders, mergeBatches
+returns an error on a type conflict — both read from the regenerated facts). -/
 namespace Arc.C04
 open Arc.Generated.C04
 
 /-- what `flushMerged` needs of a batch to be panic-free -/
 def flushable (m : Batch) : Prop :=
-  ∀ c ∈ m.cols, c.name ≠ [] ∧ c.len = m.times.length ∧ (c.vlen = 0 ∨ c.vlen = c.len)
+  ∀ c ∈ m.cols, c.len = m.times.length ∧ (c.vlen = 0 ∨ c.vlen = c.len)
 
-/-- one Go type per column name inside a batch (Go map keys are unique) -/
-def functional (b : Batch) : Bool :=
-  b.cols.all fun c1 => b.cols.all fun c2 => c1.name != c2.name || c1.ty == c2.ty
+/-- the carve-out on batches: every column, and every validity vector that exists, is exactly as long
+as the `time` column. (Every producer except `rowsToColumnar` builds such batches; see
+`C04_full_witness_time_field`.) -/
+def evenBatch (b : Batch) : Bool :=
+  b.cols.all (fun c => c.len == b.times.length && (c.vlen == 0 || c.vlen == c.len))
 
-/-- a batch the carve-out admits: no empty and no `_`-prefixed column name, every column and validity
-vector as long as the `time` column, one type per name -/
-def cleanBatch (b : Batch) : Bool :=
-  b.cols.all (fun c => !c.name.isEmpty && !isUnderscore c.name && c.len == b.times.length &&
-    (c.vlen == 0 || c.vlen == c.len)) && functional b
-
-def SigEq (a b : Batch) : Prop := ∀ p, p ∈ sigPairs a ↔ p ∈ sigPairs b
-
-theorem sameSig_iff (a b : Batch) : sameSig a b = true ↔ SigEq a b := by
-  unfold sameSig SigEq
-  simp only [Bool.and_eq_true, List.all_eq_true, List.contains_iff_mem]
-  constructor
-  · intro h p; exact ⟨h.1 p, h.2 p⟩
-  · intro h; exact ⟨fun p hp => (h p).1 hp, fun p hp => (h p).2 hp⟩
-
-theorem clean_flushable {b : Batch} (h : cleanBatch b = true) : flushable b := by
-  unfold cleanBatch at h
-  simp only [Bool.and_eq_true, List.all_eq_true] at h
+theorem even_flushable {b : Batch} (h : evenBatch b = true) : flushable b := by
+  unfold evenBatch at h
+  simp only [List.all_eq_true] at h
   intro c hc
-  have := h.1 c hc
-  simp only [Bool.and_eq_true, Bool.not_eq_true', List.isEmpty_eq_false_iff, beq_iff_eq, Bool.or_eq_true] at this
-  exact ⟨this.1.1.1, this.1.2, this.2⟩
-
-theorem clean_not_skipped {b : Batch} (h : cleanBatch b = true) {c : Col} (hc : c ∈ b.cols) :
-    sigSkips c.name = false := by
-  unfold cleanBatch at h
-  simp only [Bool.and_eq_true, List.all_eq_true] at h
-  have := h.1 c hc
-  simp only [Bool.and_eq_true, Bool.not_eq_true'] at this
-  unfold sigSkips
-  rw [this.1.1.1, this.1.1.2]
-  simp
-
-theorem clean_functional {b : Batch} (h : cleanBatch b = true) {c1 c2 : Col}
-    (h1 : c1 ∈ b.cols) (h2 : c2 ∈ b.cols) (hn : c1.name = c2.name) : c1.ty = c2.ty := by
-  unfold cleanBatch functional at h
-  simp only [Bool.and_eq_true, List.all_eq_true] at h
-  have := h.2 c1 h1 c2 h2
-  simp only [Bool.or_eq_true, bne_iff_ne, ne_eq, beq_iff_eq] at this
-  rcases this with h | h
-  · exact absurd hn h
-  · exact h
-
-theorem mem_sigPairs {b : Batch} {c : Col} (hc : c ∈ b.cols) (hs : sigSkips c.name = false) :
-    (c.name, c.ty) ∈ sigPairs b := by
-  unfold sigPairs
-  simp only [List.mem_map, List.mem_filter]
-  exact ⟨c, ⟨hc, by simp [hs]⟩, rfl⟩
-
-theorem of_mem_sigPairs {b : Batch} {p : Name × Ty} (h : p ∈ sigPairs b) :
-    ∃ c ∈ b.cols, c.name = p.1 ∧ c.ty = p.2 := by
-  unfold sigPairs at h
-  simp only [List.mem_map, List.mem_filter] at h
-  obtain ⟨c, ⟨hc, _⟩, rfl⟩ := h
-  exact ⟨c, hc, rfl, rfl⟩
-
-/-- clean batches with equal signatures never disagree on the type of a column -/
-theorem no_conflict {bs : List Batch} (hc : ∀ b ∈ bs, cleanBatch b = true)
-    (hs : ∀ b1 ∈ bs, ∀ b2 ∈ bs, SigEq b1 b2) : conflict bs = false := by
-  cases hcf : conflict bs with
-  | false => rfl
-  | true =>
-    exfalso
-    unfold conflict at hcf
-    simp only [List.any_eq_true, Bool.and_eq_true, beq_iff_eq, bne_iff_ne, ne_eq] at hcf
-    obtain ⟨b1, hb1, b2, hb2, c1, hc1, c2, hc2, hn, ht⟩ := hcf
-    have hp := mem_sigPairs hc1 (clean_not_skipped (hc b1 hb1) hc1)
-    have hp2 := (hs b1 hb1 b2 hb2 _).1 hp
-    obtain ⟨c2', hc2', hn', ht'⟩ := of_mem_sigPairs hp2
-    have := clean_functional (hc b2 hb2) hc2' hc2 (by rw [hn']; exact hn)
-    have ht'' : c2'.ty = c1.ty := ht'
-    exact ht (by rw [← ht'', this])
+  have := h c hc
+  simp only [Bool.and_eq_true, beq_iff_eq, Bool.or_eq_true] at this
+  exact this
 
 theorem allLensEq_of {l : List Col} {n : Nat} (h : ∀ c ∈ l, c.len = n) : allLensEq l = true := by
   cases l with
@@ -94,88 +33,79 @@ theorem allLensEq_of {l : List Col} {n : Nat} (h : ∀ c ∈ l, c.len = n) : all
     rw [h d (List.mem_cons_of_mem _ hd), h c (List.mem_cons_self ..)]
 
 theorem writeParquet_ok {cols : List Col} {n rows : Nat}
-    (h : ∀ c ∈ cols, c.name ≠ [] ∧ c.len = n ∧ (c.vlen = 0 ∨ c.vlen = c.len)) :
+    (h : ∀ c ∈ cols, c.len = n ∧ (c.vlen = 0 ∨ c.vlen = c.len)) :
     ∃ r, writeParquet cols rows = .ok r := by
   unfold writeParquet
-  have h1 : cols.any (fun c => c.name.isEmpty) = false := by
-    simp only [List.any_eq_false, List.isEmpty_iff]
-    intro c hc; exact (h c hc).1
-  simp only [h1, Bool.and_false, Bool.false_eq_true, ↓reduceIte]
+  -- `name[0]` is guarded in the current source
+  have hg : schemaGuardsEmpty = true := by decide
+  simp only [hg, Bool.not_true, Bool.false_and, Bool.false_eq_true, ↓reduceIte]
   split
   · exact ⟨_, rfl⟩
   · have h2 : (schemaFields cols).any (fun c => c.vlen != 0 && c.vlen != c.len) = false := by
       simp only [List.any_eq_false, Bool.and_eq_true, bne_iff_ne, ne_eq, not_and, Decidable.not_not]
       intro c hc h0
       unfold schemaFields at hc
-      rcases (h c (List.mem_filter.1 hc).1).2.2 with hv | hv
+      rcases (h c (List.mem_filter.1 hc).1).2 with hv | hv
       · exact absurd hv h0
       · exact hv
     have h3 : allLensEq (schemaFields cols) = true := by
       apply allLensEq_of (n := n)
       intro c hc
       unfold schemaFields at hc
-      exact (h c (List.mem_filter.1 hc).1).2.1
+      exact (h c (List.mem_filter.1 hc).1).1
     simp only [h2, Bool.false_eq_true, ↓reduceIte, h3, Bool.not_true]
     exact ⟨_, rfl⟩
 
-theorem evened_ok {cols : List Col} {n : Nat} (h : ∀ c ∈ cols, c.name ≠ []) :
-    ∀ c ∈ evened cols n, c.name ≠ [] ∧ c.len = n ∧ (c.vlen = 0 ∨ c.vlen = c.len) := by
+theorem evened_ok (cols : List Col) (n : Nat) :
+    ∀ c ∈ evened cols n, c.len = n ∧ (c.vlen = 0 ∨ c.vlen = c.len) := by
   intro c hc
   unfold evened at hc
   simp only [List.mem_map] at hc
-  obtain ⟨d, hd, rfl⟩ := hc
-  refine ⟨h d hd, rfl, ?_⟩
+  obtain ⟨d, _, rfl⟩ := hc
+  refine ⟨rfl, ?_⟩
   by_cases hv : d.vlen == 0 <;> simp [hv]
 
 theorem flushMerged_ok {m : Batch} (h : flushable m) : ∃ r, flushMerged m = .ok r := by
   unfold flushMerged
   split
   · exact ⟨_, rfl⟩
-  · rename_i t0 ts hts
-    have hne : ∀ c ∈ m.cols, c.name ≠ [] := fun c hc => (h c hc).1
-    simp only
+  · simp only
     split
     · split
       · exact writeParquet_ok (n := m.times.length) h
       · have h1 : m.cols.any (fun c => decide (c.len < m.times.length)) = false := by
           simp only [List.any_eq_false, decide_eq_true_eq, Nat.not_lt]
-          intro c hc; rw [(h c hc).2.1]; exact Nat.le_refl _
+          intro c hc; rw [(h c hc).1]; exact Nat.le_refl _
         have h2 : m.cols.any (fun c => c.vlen != 0 && decide (c.vlen < m.times.length)) = false := by
           simp only [List.any_eq_false, Bool.and_eq_true, bne_iff_ne, ne_eq, decide_eq_true_eq, not_and, Nat.not_lt]
           intro c hc h0
-          rcases (h c hc).2.2 with hv | hv
+          rcases (h c hc).2 with hv | hv
           · exact absurd hv h0
-          · rw [hv, (h c hc).2.1]; exact Nat.le_refl _
+          · rw [hv, (h c hc).1]; exact Nat.le_refl _
         simp only [h1, Bool.and_false, Bool.false_eq_true, ↓reduceIte, h2]
-        exact writeParquet_ok (evened_ok hne)
-    · exact writeParquet_ok (evened_ok hne)
+        exact writeParquet_ok (evened_ok _ _)
+    · exact writeParquet_ok (evened_ok _ _)
 
-theorem mem_unionNames {bs : List Batch} {nm : Name} (h : nm ∈ unionNames bs) :
-    ∃ b ∈ bs, ∃ c ∈ b.cols, c.name = nm := by
-  unfold unionNames at h
-  have h' := List.mem_eraseDups.1 h
-  simp only [List.mem_flatMap, List.mem_map] at h'
-  obtain ⟨b, hb, c, hc, rfl⟩ := h'
-  exact ⟨b, hb, c, hc, rfl⟩
-
-theorem merged_flushable {bs : List Batch} (hc : ∀ b ∈ bs, cleanBatch b = true) :
-    flushable (mergedBatch bs) := by
+theorem merged_flushable (bs : List Batch) : flushable (mergedBatch bs) := by
   intro c hcm
   unfold mergedBatch at hcm ⊢
   simp only [List.mem_map] at hcm
-  obtain ⟨nm, hnm, rfl⟩ := hcm
-  obtain ⟨b, hb, d, hd, rfl⟩ := mem_unionNames hnm
-  exact ⟨(clean_flushable (hc b hb) d hd).1, rfl, Or.inl rfl⟩
+  obtain ⟨nm, _, rfl⟩ := hcm
+  exact ⟨rfl, Or.inl rfl⟩
 
-/-- a flush of clean batches that share one signature cannot panic -/
-theorem flushBatches_ok {bs : List Batch} (hc : ∀ b ∈ bs, cleanBatch b = true)
-    (hs : ∀ b1 ∈ bs, ∀ b2 ∈ bs, SigEq b1 b2) : ∃ r, flushBatches bs = .ok r := by
+/-- a flush of even batches cannot panic (a type conflict makes mergeBatches return an error) -/
+theorem flushBatches_ok {bs : List Batch} (hc : ∀ b ∈ bs, evenBatch b = true) :
+    ∃ r, flushBatches bs = .ok r := by
   unfold flushBatches mergeBatches
-  match bs, hc, hs with
-  | [], _, _ => exact ⟨_, rfl⟩
-  | [b], hc, _ => exact flushMerged_ok (clean_flushable (hc b (List.mem_cons_self ..)))
-  | b1 :: b2 :: rest, hc, hs =>
-    simp only [no_conflict hc hs, Bool.false_eq_true, ↓reduceIte]
-    exact flushMerged_ok (merged_flushable hc)
+  match bs, hc with
+  | [], _ => exact ⟨_, rfl⟩
+  | [b], hc => exact flushMerged_ok (even_flushable (hc b (List.mem_cons_self ..)))
+  | b1 :: b2 :: rest, _ =>
+    have hm : mergeUncheckedAsserts = 0 := by decide
+    simp only [hm, Nat.lt_irrefl, decide_false, Bool.false_and, Bool.false_eq_true, ↓reduceIte]
+    by_cases hcf : conflict (b1 :: b2 :: rest) = true
+    · simp only [hcf, ↓reduceIte]; exact ⟨_, rfl⟩
+    · simp only [hcf, Bool.false_eq_true, ↓reduceIte]
+      exact flushMerged_ok (merged_flushable _)
 
 end Arc.C04
